@@ -28,4 +28,5 @@ done
 git add -A; git commit -q -m "after merge $B: manifest, lock"
 U=${B^}
 git worktree remove --force /tmp/w/$U 2>/dev/null; git -C /repo worktree remove --force /tmp/r/$U 2>/dev/null; git branch -D $B -q
+[ -n "$SKIP_CHECK" ] && exit 0
 for P in "$@"; do ./check $P > /tmp/merge_check_$P.log 2>&1; echo "$P exit $?"; grep -E "^VIOLATION" /tmp/merge_check_$P.log | head -3; done
